@@ -72,6 +72,10 @@ func VH_C17_render() {
 	late := vx.Bool() // render from the second handler after Renderer instead of the first
 
 	f := NewWithLogger(io.Discard)
+	if vx.Bool() {
+		// a middleware in front of the Renderer has already put a Content-Type on the response
+		f.Use(func(c Context) { c.ResponseWriter().Header().Set("Content-Type", "text/html; charset=x") })
+	}
 	f.Use(Renderer(opts...))
 	do := func(r Render) {
 		switch kind {
